@@ -303,6 +303,9 @@ def _check_file_lengths(case):
     """every recording length at a rate: save -> open must return every sample (frame counts derived from float durations)"""
     width, rate, n = case
     s = [((i * 37) % 251) - 125 for i in range(n)] if width == 1 else [((i * 7919) % 65521) - 32760 for i in range(n)]
+    big = n > 1000
+    if big:
+        s[-1] = 77  # distinct tail
     d = scratch_dir()
     fn = os.path.join(d, "c16-len.wav")
     viols = []
@@ -339,6 +342,31 @@ def _check_file_lengths(case):
     return 4, "ok", (width, rate, n), viols
 
 
+def _check_edit_large(case):
+    """one edit / extraction on a LONG recording (samples regenerated here from (width, rate, n)), same list model as the BFS"""
+    width, rate, n, op = case
+    smp = [((i * 37) % 251) - 125 for i in range(n)] if width == 1 else [((i * 7919) % 65521) - 32760 for i in range(n)]
+    succ, cnt, outcome, nontriv, viols = _step((width, rate, tuple(smp)), op)
+    for v in viols:
+        if len(v["msg"]) > 700:
+            v["msg"] = v["msg"][:340] + " ... " + v["msg"][-340:]
+    return cnt, outcome if isinstance(outcome, str) else str(outcome), (width, rate, n, op[0]), viols
+
+
+def _edit_large_cases(quick):
+    for width, rate in ((2, 8000), (1, 8000), (4, 44100)):
+        for n in ((1025, 4097, 65537) if quick else (1025, 2049, 4097, 8193, 65537, 70000, 131073)):
+            T = [k / rate for k in (0, 1, n // 2, n - 1, n)]
+            yield (width, rate, n, ("cat",))
+            for t in T:
+                yield (width, rate, n, ("ins", t))
+                yield (width, rate, n, ("insdel", t))
+            for i, t0 in enumerate(T):
+                for t1 in T[i:]:
+                    for k in ("del", "rep", "sub"):
+                        yield (width, rate, n, (k, t0, t1))
+
+
 def _length_cases(quick):
     rates = (8, 8000, 11025, 16000, 22050, 44100, 48000)
     top = 128 if quick else 400
@@ -348,6 +376,12 @@ def _length_cases(quick):
     for width in (1, 4):
         for rate in (44100, 48000, 8000):
             for n in range(0, top + 1, 1 if not quick else 3):
+                yield (width, rate, n)
+    # the size axis: recordings around the usual block / buffer sizes (2**10 .. 2**17 samples or bytes)
+    big = (1023, 1024, 1025, 2047, 2048, 2049, 4095, 4096, 4097, 5000, 8191, 8192, 8193, 16385, 32769, 65535, 65536, 65537, 70000, 131073)
+    for width in (1, 2, 4):
+        for rate in (8000, 44100):
+            for n in (big if not quick else big[::2] + (65537,)):
                 yield (width, rate, n)
 
 
@@ -382,6 +416,10 @@ def parts(tier):
                   rule="every pair (op1, op2) of edit / query calls on ONE live Wav object for 2 recordings, followed by a getSamples/duration query, list "
                        "model in lock step (prime - edit - query)",
                   bounds={"sequence_length": 2}, chunk=2),
+        InputPart("edit-large-recordings", lambda: _edit_large_cases(quick), _check_edit_large,
+                  rule="one insert / insert-then-delete / deleteSegment / replaceSegment / getSubwav / concatenate on recordings of 1025 .. 65537 "
+                       "(thorough 131073) samples, 3 (width, rate) pairs, at the first, second, middle, last sample and the end: same list model",
+                  bounds={}, chunk=1),
         InputPart("file-round-trip-all-lengths", lambda: _length_cases(quick), _check_file_lengths,
                   rule="EVERY recording length 0..%d at rates {8, 8000, 11025, 16000, 22050, 44100, 48000} (width 2; widths 1 and 4 at three "
                        "rates): Wav.save read by the independent RIFF reader, Wav.open and QueryWav must return every sample and "
